@@ -14,7 +14,12 @@ import (
 // reported (as a race, a deadlock, a deadlock) deterministically.
 func TestSimrtSelf(t *testing.T) {
 	runBatches(t, "simself", func(t *rapid.T) {
-		variant := uni(t, "variant", 4) // 0 correct, 1 unlocked write, 2 recursive RLock vs writer, 3 Signal where Broadcast is needed
+		variant := uni(t, "variant", 6) // 0 correct, 1 unlocked write, 2 recursive RLock vs writer, 3 Signal where Broadcast is needed, 4 correct channels, 5 done channel never closed
+		if variant >= 4 {
+			chanSelf(t, variant == 5)
+			count("runs", 1)
+			return
+		}
 		var (
 			rw      sync.RWMutex
 			mu      sync.Mutex
@@ -107,4 +112,65 @@ func TestSimrtSelf(t *testing.T) {
 		}
 		count("runs", 1)
 	})
+}
+
+// chanSelf: channel operations under the simulator. Correct use (an unbuffered
+// hand-off that is the ONLY synchronisation for a shared variable, a buffered
+// channel as a semaphore, a done channel closed by the producer) must give no
+// race report and no deadlock; a done channel that is never closed must be
+// reported as a deadlock.
+func chanSelf(t *rapid.T, neverClose bool) {
+	var (
+		data  = make(chan int)         // unbuffered
+		ack   = make(chan struct{})    // unbuffered
+		sem   = make(chan struct{}, 1) // buffered: a semaphore
+		done  = make(chan struct{})
+		box   int // written by the producer before each send, read by the consumer after each receive
+		total int // protected by sem
+		sum   int
+	)
+	sim := simrt.NewSim(rapidChooser{t}, drawSched(t, 100))
+	sim.Go("producer", func() {
+		for i := 1; i <= 3; i++ {
+			box = i * 10
+			simrt.ChanSend(data, i, "p.send")
+			simrt.ChanRecv1(ack, "p.ack") // the consumer is done with box
+		}
+		if !neverClose {
+			simrt.ChanClose(done, "p.close")
+		}
+	})
+	sim.Go("consumer", func() {
+		for i := 1; i <= 3; i++ {
+			v := simrt.ChanRecv1(data, "c.recv")
+			sum += v + box
+			simrt.ChanSend(ack, struct{}{}, "c.ack")
+		}
+	})
+	for i := 0; i < 2; i++ {
+		sim.Go("worker", func() {
+			simrt.ChanSend(sem, struct{}{}, "w.acquire")
+			total++
+			simrt.ChanRecv1(sem, "w.release")
+			_, ok := simrt.ChanRecv2(done, "w.done")
+			if ok {
+				panic("receive from closed channel reported ok")
+			}
+		})
+	}
+	mark := raceBegin()
+	err := sim.Run()
+	races, text := raceEnd(mark)
+	count("simself_runs", 1)
+	if neverClose {
+		if _, ok := err.(*simrt.Deadlock); ok {
+			count("simself_chan_never_closed_found", 1)
+			return
+		}
+		t.Fatalf("VERIF-INTERNAL simrt self-test: done channel never closed, but err=%v", err)
+	}
+	if err != nil || races != 0 || sum != 6+60 || total != 2 {
+		t.Fatalf("VERIF-INTERNAL simrt self-test: correct channel program reported err=%v races=%d sum=%d total=%d\n%s", err, races, sum, total, text)
+	}
+	count("simself_chan_correct", 1)
 }
